@@ -12,7 +12,6 @@ import (
 	"testing"
 	"time"
 
-	"github.com/fxamacker/cbor/v2"
 	"go.flow.arcalot.io/pluginsdk/atp"
 	"pgregory.net/rapid"
 	"verif/harness/atpx"
@@ -236,7 +235,7 @@ func pokeDataOK(data any) (ok bool) {
 func expect(sc Script) expectation {
 	ex := expectation{terminals: map[string]int{}, workDone: map[string]string{}, workTag: map[string]any{}}
 	stream := streamOf(sc)
-	dec := cbor.NewDecoder(bytes.NewReader(stream))
+	dec := atpx.Dec.NewDecoder(bytes.NewReader(stream))
 	var start any
 	if err := dec.Decode(&start); err != nil {
 		if len(stream) > 0 {
@@ -260,7 +259,7 @@ func expect(sc Script) expectation {
 		switch m.MessageID {
 		case atp.MessageTypeWorkStart:
 			var ws atp.WorkStartMessage
-			if err := cbor.Unmarshal(m.RawMessageData, &ws); err != nil {
+			if err := atpx.Dec.Unmarshal(m.RawMessageData, &ws); err != nil {
 				ex.terminals[m.RunID]++
 				ex.problems++
 				ex.abnormal++
@@ -301,7 +300,7 @@ func expect(sc Script) expectation {
 			}
 		case atp.MessageTypeSignal:
 			var sm atp.SignalMessage
-			if err := cbor.Unmarshal(m.RawMessageData, &sm); err != nil || m.RunID == "" || !known[m.RunID] || sm.SignalID != "poke" {
+			if err := atpx.Dec.Unmarshal(m.RawMessageData, &sm); err != nil || m.RunID == "" || !known[m.RunID] || sm.SignalID != "poke" {
 				ex.problems++
 				ex.abnormal++
 				continue
